@@ -14,7 +14,8 @@
 From Coq Require Import String.
 From Coq Require Import List NArith ZArith Bool Lia.
 From Coq Require Import ZifyN ZifyNat ZifyBool.
-From Verif Require Import Lib.Path Lib.GoLib Jsonx.Lex Gen.CodeLexing Jsonx.CodeCands.
+From Verif Require Import Lib.Path Lib.Utf8 Lib.GoLib Jsonx.Lex Jsonx.LexProofs Jsonx.Parse Jsonx.ParseProofs
+  Gen.CodeLexing Jsonx.CodeCands.
 Import ListNotations.
 Local Open Scope Z_scope.
 
@@ -352,3 +353,297 @@ Proof.
       cbn [obs_of_gen obs_of_model tty tlit orb app map]. unfold num_ty, zs. rewrite ?map_app.
       destruct fl1, fl2; reflexivity.
 Qed.
+
+(** * lexEscape / LexString *)
+
+(** What [lexEscape] consumes: the prefix, the rest, the errors. *)
+Fixpoint dig_run (k : nat) (base max v : N) (s : list N) : list N * list N * list ecode :=
+  match k with
+  | O => ([], s, code_point_errs max v)
+  | S k' =>
+      match s with
+      | [] => ([], [], [EEscNotTerm])
+      | c :: r =>
+          let d := digit_val c in
+          if (base <=? d)%N then ([], s, [EIllegalEscChar])
+          else let '(p, s', e) := dig_run k' base max (v * base + d) r in (c :: p, s', e)
+      end
+  end.
+
+Definition esc_run (q : N) (s : list N) : list N * list N * list ecode :=
+  match s with
+  | [] => ([], [], [EEscNotTerm])
+  | c :: r =>
+      if is_simple_escape q c then ([c], r, [])
+      else if in_range 48 55 c then dig_run 3 8 255 0 s
+      else if (c =? 120)%N then let '(p, s', e) := dig_run 2 16 255 0 r in (c :: p, s', e)
+      else if (c =? 117)%N then let '(p, s', e) := dig_run 4 16 max_rune 0 r in (c :: p, s', e)
+      else if (c =? 85)%N then let '(p, s', e) := dig_run 8 16 max_rune 0 r in (c :: p, s', e)
+      else ([], s, [EUnknownEsc])
+  end.
+
+(** The model's string machine, from an escape state, is: run the escape,
+    then go on in the normal state. *)
+Lemma str_go_dig q : forall k base max v s,
+  str_go q (SDig k base max v) s =
+  let '(p, s', e) := dig_run k base max v s in
+  let '(l, rest, e2) := str_go q SNormal s' in (p ++ l, rest, e ++ e2)%list.
+Proof.
+  induction k as [|k IH]; intros base max v s.
+  - destruct s as [|c r]; cbn [dig_run str_go str_end_errs str_act dig_act app].
+    + reflexivity.
+    + destruct (normal_act q c) as [e2 a]. destruct a as [st'|[|]].
+      * destruct (str_go q st' r) as [[l rest] e3]. now rewrite app_assoc.
+      * reflexivity.
+      * reflexivity.
+  - destruct s as [|c r]; cbn [dig_run str_go str_end_errs str_act dig_act app]; [reflexivity|].
+    destruct (base <=? digit_val c)%N.
+    + cbn [str_go str_act app]. destruct (normal_act q c) as [e2 a]. destruct a as [st'|[|]].
+      * destruct (str_go q st' r) as [[l rest] e3]. reflexivity.
+      * reflexivity.
+      * reflexivity.
+    + rewrite IH. destruct (dig_run k base max _ r) as [[p s'] e].
+      destruct (str_go q SNormal s') as [[l rest] e2]. reflexivity.
+Qed.
+
+Lemma str_go_esc q s :
+  str_go q SEsc s =
+  let '(p, s', e) := esc_run q s in
+  let '(l, rest, e2) := str_go q SNormal s' in (p ++ l, rest, e ++ e2)%list.
+Proof.
+  destruct s as [|c r]; cbn [esc_run str_go str_end_errs str_act app]; [reflexivity|]. unfold esc_act.
+  destruct (is_simple_escape q c).
+  - destruct (str_go q SNormal r) as [[l rest] e2]. reflexivity.
+  - destruct (in_range 48 55 c).
+    + pose proof (str_go_dig q 3 8 255 0 (c :: r)) as H. cbn [str_go str_act] in H. exact H.
+    + destruct (c =? 120)%N; [|destruct (c =? 117)%N; [|destruct (c =? 85)%N]].
+      * rewrite str_go_dig. destruct (dig_run _ _ _ _ r) as [[p s'] e].
+        destruct (str_go q SNormal s') as [[l rest] e2]. reflexivity.
+      * rewrite str_go_dig. destruct (dig_run _ _ _ _ r) as [[p s'] e].
+        destruct (str_go q SNormal s') as [[l rest] e2]. reflexivity.
+      * rewrite str_go_dig. destruct (dig_run _ _ _ _ r) as [[p s'] e].
+        destruct (str_go q SNormal s') as [[l rest] e2]. reflexivity.
+      * cbn [str_go str_act app]. destruct (normal_act q c) as [e2 a]. destruct a as [st'|[|]].
+        -- destruct (str_go q st' r) as [[l rest] e3]. reflexivity.
+        -- reflexivity.
+        -- reflexivity.
+Qed.
+
+(** The generated side. *)
+Lemma gen_digitVal_is_model c : gen_lexing_digitVal (Z.of_N c) = Z.of_N (digit_val c).
+Proof.
+  unfold gen_lexing_digitVal, digit_val, is_digit, in_range, wrap_i64, wrap_i32, two63z, two64z.
+  rewrite ?Zc_leb, ?Zc_leb'. go_cases; go_arith; lia.
+Qed.
+
+Lemma esc_loop : forall (k : nat) (s : list N) (fuel : nat) (i n rr : Z) (base max v : N) (buf : list Z) (errs : list go_err),
+  n - i = Z.of_nat k -> 0 <= i -> n <= 16 -> (2 <= base <= 16)%N -> ((v + 1) * base ^ N.of_nat k <= 4294967296)%N ->
+  (k < fuel)%nat ->
+  let '(p, s', e) := dig_run k base max v s in
+  exists (b : bool) (EE : list go_err),
+    gen_lexing_lexEscape_loop1 fuel i (Z.of_N base) (Z.of_N max) n rr (Z.of_N v) 34 buf errs (zs s)
+    = GoOk (b, zs s', buf ++ zs p, errs ++ EE) /\ map ecode_of EE = e.
+Proof.
+  induction k as [|k IH]; intros s fuel i n rr base max v buf errs Hk Hi Hn Hb Hv Hf;
+    (destruct fuel as [|fuel]; [lia|]); cbn [dig_run gen_lexing_lexEscape_loop1].
+  - replace (i <? n) with false by lia. unfold code_point_errs, in_range.
+    rewrite app_nil_r.
+    rewrite Z.gtb_ltb. replace (Z.of_N max <? Z.of_N v) with (max <? v)%N by lia.
+    replace ((55296 <=? Z.of_N v) && (Z.of_N v <? 57344)) with ((55296 <=? v)%N && (v <=? 57343)%N) by lia.
+    destruct ((max <? v)%N || (55296 <=? v)%N && (v <=? 57343)%N).
+    + eexists _, [_]. split; reflexivity.
+    + exists true, []. rewrite app_nil_r. split; reflexivity.
+  - replace (i <? n) with true by lia.
+    destruct s as [|c r]; lex_simpl.
+    + eexists _, [_]. cbn [zs map app]. rewrite app_nil_r. split; reflexivity.
+    + rewrite gen_digitVal_is_model.
+      assert (Hd : (digit_val c <= 16)%N).
+      { unfold digit_val, is_digit, in_range. go_cases; go_arith; lia. }
+      assert (Hw : wrap_u32 (Z.of_N (digit_val c)) = Z.of_N (digit_val c))
+        by (unfold wrap_u32; apply Z.mod_small; lia).
+      rewrite Hw.
+      rewrite Z.geb_leb. replace (Z.of_N base <=? Z.of_N (digit_val c)) with (base <=? digit_val c)%N by lia.
+      destruct (N.leb_spec base (digit_val c)) as [Hge|Hlt].
+      * eexists _, [_]. cbn [zs map app]. rewrite app_nil_r. split; reflexivity.
+      * assert (Hpow : (N.of_nat (S k) = N.succ (N.of_nat k))%N) by lia.
+        rewrite Hpow, N.pow_succ_r' in Hv.
+        assert (Hv2 : ((v * base + digit_val c + 1) * base ^ N.of_nat k <= 4294967296)%N) by nia.
+        assert (Hpos : (1 <= base ^ N.of_nat k)%N).
+        { pose proof (N.pow_nonzero base (N.of_nat k) ltac:(lia)). lia. }
+        assert (Hsmall : (v * base + digit_val c < 4294967296)%N) by nia.
+        assert (Hsmall1 : (v * base < 4294967296)%N) by nia.
+        unfold wrap_u32 at 2. rewrite <- N2Z.inj_mul, Z.mod_small by lia.
+        unfold wrap_u32. rewrite <- N2Z.inj_add, Z.mod_small by lia.
+        rewrite (wrap_i64_small (i + 1)) by (unfold is_i64, two63z; lia).
+        specialize (IH r fuel (i + 1) n rr base max (v * base + digit_val c)%N (buf ++ [Z.of_N c]) errs
+                       ltac:(lia) ltac:(lia) Hn Hb Hv2 ltac:(lia)).
+        destruct (dig_run k base max (v * base + digit_val c) r) as [[p s'] e].
+        destruct IH as (b & EE & E1 & E2). exists b, EE. rewrite E1. split; [|exact E2].
+        rewrite <- app_assoc. reflexivity.
+Qed.
+
+Lemma simple_escape_34 c :
+  ((c =? 97) || (c =? 98) || (c =? 102) || (c =? 110) || (c =? 114) || (c =? 116) || (c =? 118) || (c =? 92)
+   || (c =? 34))%N = is_simple_escape 34 c.
+Proof. unfold is_simple_escape. cbn [existsb]. rewrite orb_false_r. rewrite !orb_assoc. reflexivity. Qed.
+
+Lemma octal_digit c :
+  ((c =? 48) || (c =? 49) || (c =? 50) || (c =? 51) || (c =? 52) || (c =? 53) || (c =? 54) || (c =? 55))%N
+  = in_range 48 55 c.
+Proof. unfold in_range. lia. Qed.
+
+Lemma gen_lexEscape_run : forall (s : list N) (buf : list Z) (errs : list go_err),
+  let '(p, s', e) := esc_run 34 s in
+  exists (b : bool) (EE : list go_err),
+    gen_lexing_lexEscape (zs s) buf errs 34 = GoOk (b, zs s', buf ++ zs p, errs ++ EE) /\ map ecode_of EE = e.
+Proof.
+  intros s buf errs. unfold gen_lexing_lexEscape, esc_run. cbv zeta.
+  destruct s as [|c r]; lex_simpl.
+  - eexists _, [_]. cbn [zs map app]. rewrite app_nil_r. split; reflexivity.
+  - rewrite simple_escape_34, octal_digit.
+    destruct (is_simple_escape 34 c).
+    { exists true, []. rewrite !app_nil_r. split; reflexivity. }
+    destruct (in_range 48 55 c).
+    { rewrite <- zs_cons.
+      pose proof (esc_loop 3 (c :: r) (S (length (zs (c :: r))) + S (S (Z.to_nat (3 - 0)))) 0 3 (Z.of_N c) 8 255 0 buf errs
+                    eq_refl ltac:(lia) ltac:(lia) ltac:(lia) ltac:(cbn; lia) ltac:(lia)) as H.
+      exact H. }
+    destruct (c =? 120)%N.
+    { pose proof (esc_loop 2 r (S (length (zs r)) + S (S (Z.to_nat (2 - 0)))) 0 2 (Z.of_N c) 16 255 0 (buf ++ [Z.of_N c]) errs
+                    eq_refl ltac:(lia) ltac:(lia) ltac:(lia) ltac:(cbn; lia) ltac:(lia)) as H.
+      destruct (dig_run 2 16 255 0 r) as [[p s'] e]. destruct H as (b & EE & E1 & E2).
+      exists b, EE. split; [|exact E2]. etransitivity; [exact E1|]. rewrite <- app_assoc. reflexivity. }
+    destruct (c =? 117)%N.
+    { pose proof (esc_loop 4 r (S (length (zs r)) + S (S (Z.to_nat (4 - 0)))) 0 4 (Z.of_N c) 16 max_rune 0 (buf ++ [Z.of_N c]) errs
+                    eq_refl ltac:(lia) ltac:(lia) ltac:(lia) ltac:(cbn; lia) ltac:(lia)) as H.
+      destruct (dig_run 4 16 max_rune 0 r) as [[p s'] e]. destruct H as (b & EE & E1 & E2).
+      exists b, EE. split; [|exact E2]. etransitivity; [exact E1|]. rewrite <- app_assoc. reflexivity. }
+    destruct (c =? 85)%N.
+    { pose proof (esc_loop 8 r (S (length (zs r)) + S (S (Z.to_nat (8 - 0)))) 0 8 (Z.of_N c) 16 max_rune 0 (buf ++ [Z.of_N c]) errs
+                    eq_refl ltac:(lia) ltac:(lia) ltac:(lia) ltac:(cbn; lia) ltac:(lia)) as H.
+      destruct (dig_run 8 16 max_rune 0 r) as [[p s'] e]. destruct H as (b & EE & E1 & E2).
+      exists b, EE. split; [|exact E2]. etransitivity; [exact E1|]. rewrite <- app_assoc. reflexivity. }
+    eexists _, [_]. cbn [zs map app]. rewrite app_nil_r. split; reflexivity.
+Qed.
+
+Lemma dig_run_len : forall k base max v s,
+  let '(p, s', e) := dig_run k base max v s in (length s' <= length s)%nat.
+Proof.
+  induction k as [|k IH]; intros base max v s; cbn [dig_run]; [lia|].
+  destruct s as [|c r]; [cbn; lia|].
+  destruct (base <=? digit_val c)%N; [lia|].
+  specialize (IH base max (v * base + digit_val c)%N r).
+  destruct (dig_run k base max _ r) as [[p s'] e]. cbn [length]. lia.
+Qed.
+
+Lemma esc_run_len q s : let '(p, s', e) := esc_run q s in (length s' <= length s)%nat.
+Proof.
+  unfold esc_run. destruct s as [|c r]; [cbn; lia|].
+  destruct (is_simple_escape q c); [cbn; lia|].
+  destruct (in_range 48 55 c); [apply (dig_run_len 3 8 255 0 (c :: r))|].
+  destruct (c =? 120)%N; [|destruct (c =? 117)%N; [|destruct (c =? 85)%N; [|lia]]].
+  - pose proof (dig_run_len 2 16 255 0 r). destruct (dig_run 2 16 255 0 r) as [[p s'] e]. cbn [length]. lia.
+  - pose proof (dig_run_len 4 16 max_rune 0 r). destruct (dig_run 4 16 max_rune 0 r) as [[p s'] e]. cbn [length]. lia.
+  - pose proof (dig_run_len 8 16 max_rune 0 r). destruct (dig_run 8 16 max_rune 0 r) as [[p s'] e]. cbn [length]. lia.
+Qed.
+
+Lemma string_loop : forall (fuel : nat) (s : list N) (n t : Z) (buf : list Z) (errs : list go_err),
+  (length s < fuel)%nat ->
+  obs_of_gen (gen_lexing_LexString_loop1 fuel n 34 t buf errs (zs s)) =
+  let '(l, rest, e) := str_go 34 SNormal s in
+  OTok t (buf ++ zs l) (map ecode_of errs ++ e) (zs rest).
+Proof.
+  induction fuel as [|fuel IH]; intros s n t buf errs Hf; [lia|].
+  cbn [gen_lexing_LexString_loop1].
+  replace (34 =? 39) with false by reflexivity. cbn [andb].
+  destruct s as [|c r]; lex_simpl.
+  - cbn [str_go str_end_errs obs_of_gen zs map]. rewrite map_app, app_nil_r. reflexivity.
+  - cbn [str_go str_act]. unfold normal_act.
+    destruct (N.eqb_spec c 10) as [->|H10].
+    { cbn [obs_of_gen zs map]. rewrite map_app, app_nil_r. reflexivity. }
+    destruct (N.eqb_spec c 34) as [->|H34].
+    { cbn [obs_of_gen zs map app]. rewrite app_nil_r. reflexivity. }
+    destruct (N.eqb_spec c 92) as [->|H92].
+    { rewrite str_go_esc.
+      pose proof (gen_lexEscape_run r (buf ++ [Z.of_N 92]) errs) as HE.
+      pose proof (esc_run_len 34 r) as HL.
+      destruct (esc_run 34 r) as [[p s'] e].
+      destruct HE as (b & EE & E1 & E2). rewrite E1. cbn [go_bind].
+      rewrite IH by (cbn [length] in Hf; lia).
+      destruct (str_go 34 SNormal s') as [[l rest] e2].
+      rewrite <- !app_assoc, map_app, E2, <- app_assoc. unfold zs. rewrite map_cons, map_app. reflexivity. }
+    rewrite IH by (cbn [length] in Hf; lia).
+    destruct (str_go 34 SNormal r) as [[l rest] e2]. rewrite <- app_assoc. reflexivity.
+Qed.
+
+Lemma gen_LexString_is_model : forall (s : list N) (t : Z),
+  obs_of_gen (gen_lexing_LexString (zs s) [] [] t 34) = obs_of_model (fun _ => t) (lex_string 34 s).
+Proof.
+  intros s t. unfold gen_lexing_LexString, lex_string. cbn [Z.eqb orb negb]. cbv zeta.
+  destruct s as [|c r]; lex_simpl; [reflexivity|].
+  destruct (c =? 34)%N; cbn [negb]; [|reflexivity].
+  cbn [app Pos.eqb orb negb]. rewrite string_loop by fuel_ok.
+  destruct (str_go 34 SNormal r) as [[l rest] e]. reflexivity.
+Qed.
+
+(** * Read over the code *)
+
+(** [ErrorList.Add] is the parser model's error step [p_add] (errors as any
+    injective image [f] of the model's codes): the list keeps at most 20, the
+    jail flag is set on EVERY call. *)
+Lemma code_add_is_p_add : forall (f : ecode -> go_err) (e : ecode) (st : pstate),
+  gen_lexing_ErrorList_Add (map f (perrs st)) 20 (jail st) false (f e)
+  = GoOk (map f (perrs (p_add e st)), jail (p_add e st)).
+Proof.
+  intros. rewrite gen_ErrorList_Add_is_model. unfold p_add, add_err. cbn [perrs jail].
+  rewrite map_length. destruct (Nat.ltb _ _); [rewrite map_app|]; reflexivity.
+Qed.
+
+(** A generated lexer never runs out of the fuel it is given, and does not
+    panic when entered on the rune its caller has seen. *)
+Definition is_tok (o : lexobs) : Prop := match o with OTok _ _ _ _ => True | _ => False end.
+
+Lemma code_lexers_total : forall (s : list N) (t ti tf : Z),
+  is_tok (obs_of_gen (gen_lexing_lexLineComment (zs (47%N :: s)) [47] [])) /\
+  is_tok (obs_of_gen (gen_lexing_lexBlockComment (zs (42%N :: s)) [47] [])) /\
+  is_tok (obs_of_gen (gen_lexing_LexRawString (zs (96%N :: s)) [] [] t)) /\
+  is_tok (obs_of_gen (gen_lexing_LexString (zs (34%N :: s)) [] [] t 34)) /\
+  (forall c, is_digit c = true -> is_tok (obs_of_gen (gen_lexing_LexNumber (zs (c :: s)) [] [] ti tf))) /\
+  (forall c, is_ident_letter c = true -> is_tok (obs_of_gen (gen_lexing_LexIdent (zs (c :: s)) [] [] t))).
+Proof.
+  intros s t ti tf.
+  rewrite gen_lexLineComment_is_model, gen_lexBlockComment_is_model, gen_LexRawString_is_model, gen_LexString_is_model.
+  repeat split.
+  - cbn [lex_line_comment]. destruct (span _ s). exact I.
+  - cbn [lex_block_comment]. destruct (block_go false s) as [[? ?] ?]. exact I.
+  - cbn [lex_raw_string]. destruct (raw_go s) as [[? ?] ?]. exact I.
+  - cbn [lex_string]. rewrite N.eqb_refl. destruct (str_go 34 SNormal s) as [[? ?] ?]. exact I.
+  - intros c Hc. rewrite gen_LexNumber_is_model. pose proof (lex_number_no_panic c s Hc) as H.
+    destruct (lex_number (c :: s)); [exact I|contradiction].
+  - intros c Hc. rewrite gen_LexIdent_is_model. cbn [lex_ident]. rewrite Hc. destruct (span _ s). exact I.
+Qed.
+
+(** A block comment, string or raw string that is not closed is reported. *)
+Definition obs_errs (o : lexobs) : list ecode := match o with OTok _ _ e _ => e | _ => [] end.
+
+Lemma code_unterminated_comment_reported : forall body,
+  (forall l', fst (fst (block_go false body)) <> l' ++ [47%N])%list ->
+  obs_errs (obs_of_gen (gen_lexing_lexBlockComment (zs (42%N :: body)) [47] [])) <> [].
+Proof.
+  intros body H. rewrite gen_lexBlockComment_is_model. cbn [lex_block_comment].
+  pose proof (unterminated_comment_reported body H) as U.
+  destruct (block_go false body) as [[l rest] e]. exact U.
+Qed.
+
+Lemma code_unterminated_string_reported : forall body t,
+  (forall l', fst (fst (str_go 34 SNormal body)) <> l' ++ [34%N])%list ->
+  obs_errs (obs_of_gen (gen_lexing_LexString (zs (34%N :: body)) [] [] t 34)) <> [].
+Proof.
+  intros body t H. rewrite gen_LexString_is_model. cbn [lex_string]. rewrite N.eqb_refl.
+  pose proof (unterminated_string_reported 34 body H) as U.
+  destruct (str_go 34 SNormal body) as [[l rest] e]. exact U.
+Qed.
+
+Lemma cex_lexing_none :
+  cex_lexBlockComment = [] /\ cex_lexLineComment = [] /\ cex_ErrorList_Add = [].
+Proof. vm_compute. repeat split. Qed.
